@@ -58,6 +58,9 @@ type carrierOpts struct {
 	WrapRT func(http.RoundTripper) http.RoundTripper
 	// WrapHandler lets a case decorate the HTTP handler (middleware in front of httpgrpc).
 	WrapHandler func(http.Handler) http.Handler
+	// FullDuplex: the server side turns on full duplex for every request (http.ResponseController, Go 1.21+), as a
+	// Mux decorator may: replies are no longer held back until the request body has ended
+	FullDuplex bool
 }
 
 type Carrier struct {
@@ -124,6 +127,13 @@ func newCarrier(name string, desc *grpc.ServiceDesc, svc interface{}, o carrierO
 			mux := http.NewServeMux()
 			httpgrpc.HandleServices(mux.HandleFunc, base, newHandlerMap(desc, svc), o.UnaryInt, o.StreamInt, o.HOpts...)
 			h = mux
+		}
+		if o.FullDuplex {
+			inner := h
+			h = http.HandlerFunc(func(w http.ResponseWriter, r *http.Request) {
+				http.NewResponseController(w).EnableFullDuplex()
+				inner.ServeHTTP(w, r)
+			})
 		}
 		if o.WrapHandler != nil {
 			h = o.WrapHandler(h)
